@@ -713,13 +713,13 @@ def run(ctx: Ctx):
                 "cells and distinct (operation, function, frequency, shift, direction, variants, ...) classes among oracle cases with >= 3 periods")
     replay_corpus(ctx)
     rng = ctx.rng.fork("lines")
-    run_lines(ctx, "change", gen_change_lines(ctx, rng.fork("change"), ctx.n(4000, 40000)))
-    run_lines(ctx, "conv", gen_conv_lines(ctx, rng.fork("conv"), ctx.n(800, 8000)))
-    run_lines(ctx, "cum", gen_cum_lines(ctx, rng.fork("cum"), ctx.n(3500, 36000)))
+    run_lines(ctx, "change", gen_change_lines(ctx, rng.fork("change"), ctx.n(4000, 80000)))
+    run_lines(ctx, "conv", gen_conv_lines(ctx, rng.fork("conv"), ctx.n(800, 12000)))
+    run_lines(ctx, "cum", gen_cum_lines(ctx, rng.fork("cum"), ctx.n(3500, 70000)))
     for case in FIXED_ORACLE_CASES:
         run_oracle_case(ctx, case)
     orng = ctx.rng.fork("oracle")
-    cases = gen_oracle_cases(ctx, orng, ctx.n(6000, 60000))
+    cases = gen_oracle_cases(ctx, orng, ctx.n(6000, 150000))
     for case in cases:
         run_oracle_case(ctx, case)
         ctx.count("oracle:" + case["op"])
@@ -739,13 +739,19 @@ def search(ctx: Ctx, seeds):
 
 
 def replay(ctx: Ctx, payload):
-    case = payload.get("case")
-    if isinstance(case, dict) and "line" in case:
-        line = case["line"]
-        ws = line.split()
-        run_lines(ctx, "replay", [(ws[2], ws[1], line, bool(case.get("exact")))])
-    elif isinstance(case, dict) and "op" in case:
-        run_oracle_case(ctx, case)
-    else:
+    cases = []
+    if isinstance(payload.get("case"), dict):
+        cases.append(payload["case"])
+    # a "tie-no-longer-checks" replay carries the disagreeing request lines
+    cases += [d["case"] for d in payload.get("disagreements", []) if isinstance(d.get("case"), dict)]
+    if not cases:
         for c in FIXED_ORACLE_CASES:
             run_oracle_case(ctx, c)
+        return
+    for case in cases:
+        if "line" in case:
+            line = case["line"]
+            ws = line.split()
+            run_lines(ctx, "replay", [(ws[2], ws[1], line, bool(case.get("exact")))])
+        elif "op" in case:
+            run_oracle_case(ctx, case)
